@@ -562,13 +562,16 @@ class Subject:
                 ks = diff_keys(a, b)
                 self.violate("C16", "inspected-run-differs-from-uninspected-run", fields=ks,
                              first=first_diff(b, a, ks[0]), note="expected = never inspected, got = inspected")
-        if self.s13 is not None and not self.reloaded_started and ("C13" in self.props):
+        if "C13" in self.props:
             a2 = strip_wall(dict(a))
-            c = snapshot(self.s13, isa, mode, wall=False)
-            if a2 != c:
-                ks = diff_keys(a2, c)
-                self.violate("C13", "used-simulation-differs-from-fresh-one", fields=ks, first=first_diff(c, a2, ks[0]),
-                             effective_steps=self.eff_steps, note="expected = fresh simulation advanced by the effective steps")
+            if self.s13 is not None and not self.reloaded_started:
+                c = snapshot(self.s13, isa, mode, wall=False)
+                if a2 != c:
+                    ks = diff_keys(a2, c)
+                    self.violate("C13", "used-simulation-differs-from-fresh-one", fields=ks, first=first_diff(c, a2, ks[0]),
+                                 effective_steps=self.eff_steps, note="expected = fresh simulation advanced by the effective steps")
+            # done is stable, whatever the load history (this clause is not restricted to simulations that
+            # have not started; a load resets the bookkeeping)
             if self.was_done and self.done_snapshot is not None and a2 != self.done_snapshot:
                 ks = diff_keys(a2, self.done_snapshot)
                 self.violate("C13", "state-changed-after-done", fields=ks, first=first_diff(self.done_snapshot, a2, ks[0]))
